@@ -71,6 +71,11 @@ def rand_array(rng, sym, rank, kind="abelian", ixs=None, charge=None, parity=Non
         "cls": cls or ("dynamic" if sym == "Z4" else rng.choice(["static", "static", "dynamic"])),
         "fill": {"start": start if start is not None else rng.randint(1, 9), "step": 1, "alt": True},
     }
+    # memory layout of the blocks handed to the library: C order / Fortran order / a strided view into a larger buffer,
+    # writable or read-only (a hidden write into an operand then raises instead of going unnoticed).  Drawn from a
+    # generator of its own so that the rest of the program does not depend on it.
+    lrng = random.Random(rng.random())
+    desc["layout"] = lrng.choice(["", "", "fortran", "strided", "readonly", "readonly,strided", "readonly,fortran"])
     if kind == "fermionic":
         desc["oddpos"] = oddpos if oddpos is not None else rng.randint(1, 9)
         if phases and nsec:
